@@ -75,12 +75,21 @@ func (bc *bullyCoordinatorElector) Coordinator(ctx context.Context, peers peer.I
 
 // listen starts listening for coordinator relevant messages
 func (bc *bullyCoordinatorElector) listen(ctx context.Context) {
-	bc.comm.Subscribe(bc.sessionID, comm.CoordinatorPingMsg, bc.msgChan)
-	bc.comm.Subscribe(bc.sessionID, comm.CoordinatorElectionMsg, bc.msgChan)
-	bc.comm.Subscribe(bc.sessionID, comm.CoordinatorAliveMsg, bc.msgChan)
-	bc.comm.Subscribe(bc.sessionID, comm.CoordinatorPingResponseMsg, bc.msgChan)
-	bc.comm.Subscribe(bc.sessionID, comm.CoordinatorSelectMsg, bc.msgChan)
-	bc.comm.Subscribe(bc.sessionID, comm.CoordinatorLeaveMsg, bc.msgChan)
+	subscriptionIDs := []comm.SubscriptionID{
+		bc.comm.Subscribe(bc.sessionID, comm.CoordinatorPingMsg, bc.msgChan),
+		bc.comm.Subscribe(bc.sessionID, comm.CoordinatorElectionMsg, bc.msgChan),
+		bc.comm.Subscribe(bc.sessionID, comm.CoordinatorAliveMsg, bc.msgChan),
+		bc.comm.Subscribe(bc.sessionID, comm.CoordinatorPingResponseMsg, bc.msgChan),
+		bc.comm.Subscribe(bc.sessionID, comm.CoordinatorSelectMsg, bc.msgChan),
+		bc.comm.Subscribe(bc.sessionID, comm.CoordinatorLeaveMsg, bc.msgChan),
+	}
+	// the election is over when ctx is done: give the subscriptions and the session's streams back
+	defer func() {
+		for _, subscriptionID := range subscriptionIDs {
+			bc.comm.UnSubscribe(subscriptionID)
+		}
+		bc.comm.CloseSession(bc.sessionID)
+	}()
 
 	for {
 		select {
